@@ -549,6 +549,22 @@ func isDecryptWrapper(fn *ssa.Function, depth int) bool {
 					ok = false
 					return
 				}
+				// pass-through: (plaintext, err) of one and the same open are
+				// returned together, so the caller's test of this wrapper's
+				// error is a test of that open's error
+				if es == nil {
+					last := len(r.Results) - 1
+					same := true
+					for _, el := range Leaves(retVal(r, last), nil) {
+						ee, isE := el.(*ssa.Extract)
+						if !isE || ee.Tuple != ex.Tuple || ee.Index != call.Type().(*types.Tuple).Len()-1 {
+							same = false
+						}
+					}
+					if same {
+						seenPlain = true
+					}
+				}
 				continue
 			}
 			seenPlain = true
